@@ -70,6 +70,8 @@ class World:
         self.write("sentinel.txt", f"SENTINEL-{token}\n")
         self.write("secret.txt", self.secret_text + "\n")
         self.write("sub/inner.txt", "inner\n")
+        os.symlink("secret.txt", os.path.join(self.dir, "link_to_secret"))
+        os.symlink("sub", os.path.join(self.dir, "link_to_sub"))
         canary = os.path.join(self.dir, "bin", "canary")
         with open(canary, "w") as f:
             f.write(f"#!/bin/sh\necho ran \"$@\" >> {self.marker}\necho CANARY-OUT\n")
